@@ -112,6 +112,19 @@ theorem reverse_canonical (c : Cfg) (K : F64 → F64 → KOut) (lon0 xi eta : F6
   simp [reverseZ, revFoldZ, revUnfold, gammaRaw, h1, h2, h3, mulSign, sgn]
 
 
+/-- `extendp = true`: no folding at all in `Forward` -/
+theorem forward_extendp (c : Cfg) (hc : c.ext = true) (K : F64 → F64 → KOut) (lat d : F64) :
+    forwardD c K lat d =
+      ⟨c.scale (K lat d).q, c.scale (K lat d).p, (K lat d).gamma,
+       if c.series then MathF.angNormalize (K lat d).gamma else (K lat d).gamma, (K lat d).k * c.k0, c.scale (K lat d).p⟩ := by
+  simp [forwardD, fwdFoldD, fwdUnfold, gammaRaw, hc, mulSign, sgn]
+
+/-- `extendp = true`: no folding at all in `Reverse` -/
+theorem reverse_extendp (c : Cfg) (hc : c.ext = true) (K : F64 → F64 → KOut) (lon0 xi eta : F64) :
+    (reverseZ c K lon0 xi eta).u = (K xi eta).p ∧ (reverseZ c K lon0 xi eta).vraw = (K xi eta).q ∧
+    (reverseZ c K lon0 xi eta).graw = (K xi eta).gamma ∧ (reverseZ c K lon0 xi eta).k = (K xi eta).k * c.k0 := by
+  simp [reverseZ, revFoldZ, revUnfold, gammaRaw, hc, mulSign, sgn]
+
 theorem fabsS_signbit (x : F64) : (fabsS x).signbit = false := by
   cases x with
   | nan => rfl
